@@ -17,7 +17,7 @@ CODE = ["yowsup/layers/axolotl/layer_control.py:on_connected/onAuthed/on_disconn
 BOUNDS = {"quick": "adjustId: every id in [0, 2^32); histories of <= 6 events with generation batch 3 / refill threshold 2", "thorough": "histories of <= 8 events (10 after a login prefix)"}
 OUTSIDE = ["consumption of a prekey by an incoming first message (python-axolotl's SessionBuilder removes it; C03/C17 territory)", "id wrap-around at 2^24 (ids continue after the highest stored id; wrap is outside)",
            "server replies that arrive for an upload of a previous connection"]
-ASSUMPTIONS = ["small generation batch sizes (COUNT_GEN_PREKEYS=3, THRESHOLD_REGEN=2) stand for the production constants 812/10 (the code paths do not depend on the values)"]
+ASSUMPTIONS = ["python-axolotl's HexUtil.decodeHex modelled as binascii.unhexlify (flush_keys kernel)", "small generation batch sizes (COUNT_GEN_PREKEYS=3, THRESHOLD_REGEN=2) stand for the production constants 812/10 (the code paths do not depend on the values)"]
 EXPLANATION = "symbolic kernel for the id encoding + solver-driven bounded exploration of upload histories on the real layer, manager and sqlite store"
 
 _TMP = os.environ.get("VERIF_TMP") or ("/dev/shm" if os.path.isdir("/dev/shm") else tempfile.gettempdir())
@@ -35,6 +35,77 @@ def h_adjust_id(ctx):
         val = val * 256 + b
     obs = [("big-endian value of the bytes == id", core.eq(val, i)), ("every byte in 0..255", core.conj(*[core.eq((b >= 0) & (b <= 255), True) if H.sym(ctx) else 0 <= b <= 255 for b in items]))]
     return obs + [("three bytes below 2^24, four above", core.eq(n, core.ite(i < (1 << 24), 3, 4)) if H.sym(ctx) else n == (3 if i < (1 << 24) else 4))]
+
+
+class _SymKey(object):
+    """stand-in for a python-axolotl key record whose public key bytes are solver variables"""
+
+    def __init__(self, ctx, name, kid, sig=False):
+        self.kid = kid
+        self.pub = H.symbytes(ctx, name, 32)
+        self.sig = H.symbytes(ctx, name + "sig", 64) if sig else None
+
+    def getId(self):
+        return self.kid
+
+    def getKeyPair(self):
+        return self
+
+    def getPublicKey(self):
+        return self
+
+    def serialize(self):
+        return b"\x05" + self.pub
+
+    def getSignature(self):
+        return self.sig
+
+
+def h_flush_keys(ctx):
+    """AxolotlControlLayer.flush_keys on keys whose 32 public-key bytes are solver variables: the upload stanza carries exactly those 32 bytes
+    for every one-time key, for the signed key (with its 64-byte signature) and for the identity, ids as 3-byte big-endian numbers"""
+    from yowsup.layers.axolotl.layer_control import AxolotlControlLayer
+    import yowsup.layers.axolotl.layer_control as LC
+    if H.sym(ctx):
+        class HexModel(object):
+            """python-axolotl's HexUtil.decodeHex (codecs hex decoder) = binascii.unhexlify"""
+            decodeHex = staticmethod(lambda x: hooks.i_unhexlify(x))
+        LC.HexUtil = HexModel
+    layer = AxolotlControlLayer()
+    sent = []
+    layer.toLower = sent.append
+    ident = _SymKey(ctx, "ident", 0)
+
+    class Mgr(object):
+        registration_id = 0x01020304
+        identity = ident
+    layer._manager = Mgr()
+    i1 = ctx.int("id1", 1, 2 ** 24 - 2)          # ids over their whole range are the adjustId kernel's subject; here they matter as dict keys
+    spk = _SymKey(ctx, "spk", 7, sig=True)
+    k1, k2 = _SymKey(ctx, "k1", i1), _SymKey(ctx, "k2", i1 + 1)
+    layer.flush_keys(spk, [k1, k2])
+    obs = [("one upload stanza", len(sent) == 1)]
+    if len(sent) != 1:
+        return obs
+    node = sent[0]
+
+    def be(data):
+        v = 0
+        for b in (list(data.items) if hasattr(data, "items") else list(data)):
+            v = v * 256 + b
+        return v
+    keys = node.getChild("list").getAllChildren()
+    obs.append(("two one-time keys", len(keys) == 2))
+    for kn, k in zip(keys, (k1, k2)):
+        obs.append(("key id is the 3-byte big-endian id", core.conj(core.eq(H.length_of(kn.getChild("id").data), 3), core.eq(be(kn.getChild("id").data), k.kid))))
+        obs.append(("key value is the 32 public-key bytes", H.rope_eq(kn.getChild("value").data, k.pub)))
+    sk = node.getChild("skey")
+    obs.append(("signed key value is its 32 public-key bytes", H.rope_eq(sk.getChild("value").data, spk.pub)))
+    obs.append(("signed key signature is carried unchanged", H.rope_eq(sk.getChild("signature").data, spk.sig)))
+    obs.append(("signed key id", core.eq(be(sk.getChild("id").data), spk.kid)))
+    obs.append(("identity is the 32 identity-key bytes", H.rope_eq(node.getChild("identity").data, ident.pub)))
+    obs.append(("registration id", core.eq(be(node.getChild("registration").data), Mgr.registration_id)))
+    return obs
 
 
 class _World(object):
@@ -276,7 +347,7 @@ def h_history(ctx, n, prefix=()):
 def cases(tier):
     q = tier == "quick"
     n = 6 if q else 9
-    cs = [dict(name="kernel[adjustId]", fn=h_adjust_id)]
+    cs = [dict(name="kernel[adjustId]", fn=h_adjust_id), dict(name="kernel[flush_keys,symbolic key bytes]", fn=h_flush_keys, timeout_s=600)]
     cs.append(dict(name="history[len<=%d]" % (n - 1), fn=h_history, args=(n - 1,), max_paths=400000, timeout_s=900 if q else 3400, keep_samples=8, weight=100))
     for third in ("server-asks-for-keys", "upload-result", "upload-error", "connection-loss", "restart"):
         cs.append(dict(name="history[prefix=connect+success+%s,len<=%d]" % (third, n + 1), fn=h_history, args=(n + 1, ("connect", "success", third)), max_paths=400000,
